@@ -58,11 +58,13 @@
 #if DOM == 19
 #include <crab/domains/uf_domain.hpp>
 #endif
-#if DOM == 20
+#if DOM == 20 || DOM == 26
 #include <crab/domains/array_smashing.hpp>
+#include <crab/domains/split_dbm.hpp>
 #endif
-#if DOM == 21
+#if DOM == 21 || DOM == 27
 #include <crab/domains/array_adaptive.hpp>
+#include <crab/domains/split_dbm.hpp>
 #endif
 #if DOM == 22 || DOM == 23
 #include <crab/domains/generic_abstract_domain.hpp>
@@ -167,6 +169,12 @@ typedef split_dbm_domain<znum, varname_t, DBM_impl::BigNumDefaultParams<znum, DB
 #elif DOM == 24
 typedef split_dbm_domain<znum, varname_t, DBM_impl::SafeInt64DefaultParams<znum, DBM_impl::GraphRep::adapt_ss>> dom_t;
 #define DOM_NAME "split_dbm_domain<z_number, SafeInt64DefaultParams<adapt_ss>> (zones, checked int64 weights)"
+#elif DOM == 26
+typedef array_smashing<split_dbm_domain<znum, varname_t, DBM_impl::BigNumDefaultParams<znum, DBM_impl::GraphRep::ss>>> dom_t;
+#define DOM_NAME "array_smashing<split_dbm>"
+#elif DOM == 27
+typedef array_adaptive_domain<split_dbm_domain<znum, varname_t, DBM_impl::BigNumDefaultParams<znum, DBM_impl::GraphRep::ss>>> dom_t;
+#define DOM_NAME "array_adaptive_domain<split_dbm>"
 #elif DOM == 25
 typedef ikos::congruence_domain<znum, varname_t> dom_t;
 #define DOM_NAME "congruence_domain<z_number>"
